@@ -52,6 +52,7 @@ type Case struct {
 	K       int         `json:"k"`
 	Files   []int       `json:"files,omitempty"` // tar/untar entries: file sizes of a small tree
 	Perturb []int       `json:"perturb,omitempty"`
+	Action  int         `json:"action,omitempty"` // assemble entries: invalid-seed action 0 bail-out, 1 skip, 2 regenerate
 	CLI     *CLICase    `json:"cli,omitempty"` // set: a CLI-level case (cli_test.go); Entry is "cli"
 }
 
@@ -77,6 +78,9 @@ func genCase(t *rapid.T) Case {
 		c.Pieces = append(c.Pieces, gen.Piece{Kind: "repeat", Len: int(c.Sizes.Max) * 4, Off: 0})
 	}
 	c.N = rapid.SampledFrom([]int{1, 1, 2, 3, 4, 8}).Draw(t, "n")
+	if strings.HasPrefix(c.Entry, "assemble") {
+		c.Action = rapid.IntRange(0, 2).Draw(t, "action")
+	}
 	c.K = rapid.IntRange(1, nch+5).Draw(t, "k")
 	if rapid.IntRange(0, 3).Draw(t, "smallk") == 0 {
 		c.K = rapid.IntRange(1, 3).Draw(t, "k3")
@@ -266,7 +270,10 @@ func run(c Case) (o hx.Outcome) {
 				seeds = append(seeds, s)
 			}
 		}
-		_, err = desync.AssembleFile(ctx, target, idx, store, seeds, desync.AssembleOptions{N: n})
+		_, err = desync.AssembleFile(ctx, target, idx, store, seeds, desync.AssembleOptions{N: n, InvalidSeedAction: desync.InvalidSeedAction(c.Action % 3)})
+		if c.Entry == "assemble-seed" {
+			o.Class([]string{"assemble-seed:action:bailout", "assemble-seed:action:skip", "assemble-seed:action:regenerate"}[c.Action%3])
+		}
 		if err == nil {
 			out, _ := os.ReadFile(target)
 			if !bytes.Equal(out, blob) {
@@ -428,7 +435,7 @@ var spec = &hx.Spec[Case]{
 	Rule: "cases = (entry point in AssembleFile with/without a file seed, VerifyIndex, ChopFile, Copy, ChunkStream, IndexFromFile, Tar, UnTar, UnTarIndex; worker count; a cancellation point: before the call, the k-th store call of a kind, the k-th hit of a hook site in feeder or worker, the k-th filesystem call); for inputs of <= 12 chunks every k is enumerated for every point; " +
 		"oracle: nil error => the work is complete by the uncancelled oracle (VerifyIndex runs on a file corrupt in its last chunk, so nil is always wrong). non-trivial = the cancellation was delivered after the first and before the last unit of work; distinct by (entry, point, k, n, units, outcome)",
 	Assumptions: []string{"any non-nil error is accepted (worker errors racing the cancellation are legitimate); Interrupted is only counted", "CLI level (signals): only when the driver provides the freshly built CLI in $VERIF_DESYNC_BIN (quick: extract; thorough: all seven commands)"},
-	Required: []string{"entry:assemble", "entry:assemble-seed", "entry:verifyindex", "entry:chop", "entry:copy", "entry:chunkstream", "entry:indexfromfile", "entry:tar", "entry:untar", "entry:untarindex",
+	Required: []string{"entry:assemble", "entry:assemble-seed", "assemble-seed:action:skip", "assemble-seed:action:regenerate", "entry:verifyindex", "entry:chop", "entry:copy", "entry:chunkstream", "entry:indexfromfile", "entry:tar", "entry:untar", "entry:untarindex",
 		"point:before", "point:store", "point:hook", "point:fs", "cancel-delivered", "cancel-mid-flight", "returned-interrupted"},
 	Gen:      genCase,
 	Run:      run,
@@ -442,18 +449,31 @@ func TestKnown(t *testing.T)   { hx.Known(t, spec) }
 func TestReplay(t *testing.T)  { hx.Replay(t, spec) }
 
 // TestEnum: every k for every cancellation point of every entry point, small inputs.
+// enumNA lists the (workers, invalid-seed action) pairs enumerated for an entry point.
+func enumNA(entry string) [][2]int {
+	var out [][2]int
+	for _, n := range hx.Pick([]int{1, 3}, []int{1, 2, 3, 8}) {
+		out = append(out, [2]int{n, 0})
+		if entry == "assemble-seed" {
+			out = append(out, [2]int{n, 1}, [2]int{n, 2})
+		}
+	}
+	return out
+}
+
 func TestEnum(t *testing.T) {
 	job := -1
 	total := 0
 	for _, e := range entries {
 		for _, pt := range points[e] {
-			for _, n := range hx.Pick([]int{1, 3}, []int{1, 2, 3, 8}) {
+			for _, na := range enumNA(e) {
+				n, action := na[0], na[1]
 				job++
 				if job%hx.Shards() != hx.Shard() {
 					continue
 				}
 				for k := 1; k <= 40; k++ {
-					c := Case{Entry: e, Point: pt, K: k, N: n, Sizes: gen.Sizes{Min: 64, Avg: 128, Max: 256},
+					c := Case{Entry: e, Point: pt, K: k, N: n, Action: action, Sizes: gen.Sizes{Min: 64, Avg: 128, Max: 256},
 						Pieces: []gen.Piece{{Kind: "rand", Len: 1500, Seed: 77}}, Files: []int{10, 0, 700, 300, 20, 5}}
 					before := len(hxViolations)
 					if !hx.Case(t, spec, c) {
@@ -472,7 +492,7 @@ func TestEnum(t *testing.T) {
 		}
 	}
 	hx.AddNote("enumerated_cancellation_points", total)
-	hx.Exhaustive("every k-th event of every cancellation point of every entry point for a 1500-byte input (64:128:256) and a 6-file tree, n in {1,3}")
+	hx.Exhaustive("every k-th event of every cancellation point of every entry point for a 1500-byte input (64:128:256) and a 6-file tree, n in {1,3}; assemble with a stale seed also under the skip and regenerate actions")
 }
 
 var hxViolations []string
